@@ -21,6 +21,7 @@ class Serializer(object):
         self.__currentID = 0
         self.__transmissions = {}
         self.__incomingTransmissionFile = None
+        self.__incomingSnapshot = None
         self.__inMemorySerializedData = None
         self.__serializer = serializer
         self.__deserializer = deserializer
@@ -102,16 +103,19 @@ class Serializer(object):
             else:
                 self.__pid = -2
 
-    def deserialize(self):
+    def deserialize(self, incoming=False):
+        # incoming: the snapshot just received from the leader instead of the stored one
+        incoming = incoming and self.__incomingSnapshot is not None
         if self.__fileName is None:
-            with BytesIO(self.__inMemorySerializedData) as io:
+            with BytesIO(self.__incomingSnapshot if incoming else self.__inMemorySerializedData) as io:
                 with gzip.GzipFile(fileobj=io, mode='rb') as g:
                     return pickle.load(g)
 
+        fileName = self.__incomingSnapshot if incoming else self.__fileName
         if self.__deserializer is not None:
-            return (None,) + self.__deserializer(self.__fileName)
+            return (None,) + self.__deserializer(fileName)
         else:
-            with open(self.__fileName, 'rb') as f:
+            with open(fileName, 'rb') as f:
                 with gzip.GzipFile(fileobj=f) as g:
                     return pickle.load(g)
 
@@ -168,7 +172,8 @@ class Serializer(object):
                 return False
             self.__incomingTransmissionFile += pickle.to_bytes(data)
             if isLast:
-                self.__inMemorySerializedData = self.__incomingTransmissionFile
+                # complete, but not the stored snapshot yet: see finishIncoming()
+                self.__incomingSnapshot = self.__incomingTransmissionFile
                 self.__incomingTransmissionFile = None
                 return True
             return False
@@ -195,14 +200,35 @@ class Serializer(object):
         if isLast:
             self.__incomingTransmissionFile.close()
             self.__incomingTransmissionFile = None
-            self.__stopDumpChild()
-            try:
-                atomicReplace(tmpFile, self.__fileName)
-            except:
-                logger.exception('Failed to rename temporary incoming transition file')
-                return False
+            # complete, but not the stored snapshot yet: see finishIncoming()
+            self.__incomingSnapshot = tmpFile
             return True
         return False
+
+    def finishIncoming(self, accept):
+        # A completely received snapshot replaces the stored one only when the node installs it.
+        # One that the node does not install (it has applied that position already) may be older
+        # than the node's own snapshot, which the journal has been trimmed to.
+        incoming, self.__incomingSnapshot = self.__incomingSnapshot, None
+        if incoming is None:
+            return True
+        if self.__fileName is None:
+            if accept:
+                self.__inMemorySerializedData = incoming
+            return True
+        if not accept:
+            try:
+                os.remove(incoming)
+            except OSError:
+                pass
+            return True
+        self.__stopDumpChild()
+        try:
+            atomicReplace(incoming, self.__fileName)
+        except:
+            logger.exception('Failed to rename temporary incoming transition file')
+            return False
+        return True
 
     def __stopDumpChild(self):
         # A forked writer of our own, older dump must not rename it over the snapshot being installed.
